@@ -111,6 +111,9 @@ pub fn j_state(r: &Result<(), ParseState>) -> Value {
                 v.extend(a[1..].iter().cloned());
                 Value::Array(v)
             }
+            // a variant this harness does not know (added to the tree later)
+            #[allow(unreachable_patterns)]
+            _ => json!(["Err", "Other", 0, 0]),
         },
     }
 }
